@@ -65,6 +65,11 @@ func init() {
 		"github.com/goblimey/go-crc24q/crc24q.Hash": icCRCHash,
 		"encoding/hex.Dump":                         icHexDump,
 
+		"internal/bytealg.IndexByte":       icIndexByte,
+		"bytes.IndexByte":                  icIndexByte,
+		"internal/bytealg.IndexByteString": icIndexByteString,
+		"strings.IndexByte":                icIndexByteString,
+		"internal/bytealg.Count":           icCountByte,
 		"strings.Contains":   icStringsContains,
 		"strings.Replace":    icStringsReplace,
 		"strings.ReplaceAll": icStringsReplaceAll,
@@ -522,6 +527,50 @@ func icStringsConcrete1(f func(string) string) interceptFn {
 		}
 		return f(s)
 	}
+}
+
+// indexByteTerm: the index of the first byte equal to c, or -1, as a term.
+func (m *Machine) indexByteTerm(bs []*Term, c *Term) *Term {
+	st := m.st()
+	r := BV(^uint64(0), 64)
+	for i := len(bs) - 1; i >= 0; i-- {
+		r = st.Ite(st.Eq(bs[i], c), BV(uint64(i), 64), r)
+	}
+	return r
+}
+
+func icIndexByte(fr *frame, args []value) value {
+	vs, _ := args[0].([]value)
+	bs := make([]*Term, len(vs))
+	for i, v := range vs {
+		bs[i] = v.(*Term)
+	}
+	return fr.m.indexByteTerm(bs, args[1].(*Term))
+}
+
+func icIndexByteString(fr *frame, args []value) value {
+	if s, ok := args[0].(string); ok {
+		bs := make([]*Term, len(s))
+		for i := range bs {
+			bs[i] = BV(uint64(s[i]), 8)
+		}
+		return fr.m.indexByteTerm(bs, args[1].(*Term))
+	}
+	bs, ok := unitBytes(args[0])
+	if !ok {
+		panic(pathAbort{"IndexByte on a string with opaque parts"})
+	}
+	return fr.m.indexByteTerm(bs, args[1].(*Term))
+}
+
+func icCountByte(fr *frame, args []value) value {
+	vs, _ := args[0].([]value)
+	st := fr.m.st()
+	r := BV(0, 64)
+	for _, v := range vs {
+		r = st.Add(r, st.Ite(st.Eq(v.(*Term), args[1].(*Term)), BV(1, 64), BV(0, 64)))
+	}
+	return r
 }
 
 // replaceAllModel implements strings.Replace(s, old, new, -1) for a
